@@ -226,7 +226,8 @@ def campaign_parse(ck: Check, n: int) -> None:
     t0 = time.time()
     rng = ck.rng.fork("parse")
     cases = [(gen_case(rng, with_default=True), rng.choice(ENUM_CFGS) if rng.chance(1, 2) else Cfg()) for _ in range(n)]
-    cases = CORPUS_PARSE + cases
+    # (the systematic scope of reserved-name spellings ties the initial excludes read off the JSON Schema call site to its behaviour)
+    cases = CORPUS_PARSE + [(Case("string", vals), cfg) for vals, cfg, _, pos in enum_callers.systematic_scope() if pos == "property"] + cases
     replies = ck.driver.run([f"enum.parse {cfg.sx()} {c.sx()}" for c, cfg in cases])
     find_reqs, find_meta = [], []
     for (case, cfg), rep in zip(cases, replies):
